@@ -52,6 +52,20 @@ CHECKS = {
                 "(itself checked by C02), z3. Integer and rational environments are separate families; floats are exact reals.",
         "technique": SOLVER_TECH,
     },
+    "C07": {
+        "level": "translation_validation",
+        "text": "Per-string translation validation with the solver as equivalence checker: every operator/operand skeleton "
+                "with <= 2 binary operators (thorough: <= 3, prefix operators in every position, 2000 seeded longer strings), "
+                "ternaries, calls with keyword arguments, subscripts, attributes, tuples and parenthesisations is parsed by "
+                "pymbolic.parse and imported by ASTToPymbolic; the tree is evaluated on z3 proxies, CPython's own eval of the "
+                "same string runs on the same proxies, and z3 proves per path that they agree for every environment. Strings "
+                "Python rejects must be rejected with the parse error.",
+        "design_ref": "DESIGN.md §4 C07",
+        "note": "Trusted: CPython's parser/eval as the oracle, the evaluator as the meaning of a tree (C02), proxies, z3. "
+                "Logical nodes are compared as truth values (BoolOp wrapped in bool() in the oracle). Literal and identifier "
+                "spellings are enumerated. Known deviations are listed per string in known_findings.json.",
+        "technique": SOLVER_TECH + "; oracle = CPython's own parser and eval on the same proxies",
+    },
 }
 
 _PENDING = "check not built yet in this session (the design in DESIGN.md applies; will be claimed once its harness exists)"
